@@ -32,6 +32,12 @@ def rand_rho(rng, n, kind):
         for j in range(d):
             if i != j and A[i][j][1] == 0:
                 A[i][j][1] = rng.choice([-2, -1, 1, 2])
+    if kind == "pure":
+        v = [rand_zi(rng, 2, 0.1) for _ in range(d)]
+        if d > 1:
+            v[0], v[1] = [1, 1], [2, -1]
+        z = [complex(a, b) for a, b in v]
+        return [[[int((z[i] * z[j].conjugate()).real), int((z[i] * z[j].conjugate()).imag)] for j in range(d)] for i in range(d)]
     if kind == "hermitian":
         R = [[[A[i][j][0] + A[j][i][0], A[i][j][1] - A[j][i][1]] for j in range(d)] for i in range(d)]
         if d > 1 and all(R[i][j][1] == 0 for i in range(d) for j in range(d) if i != j):
@@ -55,12 +61,12 @@ def dm_case_term(case, out):
 def gen_dm_cases(run, rng):
     cases = []
     quick = run.tier != "thorough"
-    kinds = ["hermitian", "general"]
-    for i in range(130 if quick else 700):
+    kinds = ["hermitian", "general", "general", "hermitian", "pure"]
+    for i in range(130 if quick else 1500):
         n = rng.choice([1, 2, 2, 3, 3, 3, 4, 4, 5] if quick else [1, 2, 2, 3, 3, 3, 4, 4, 4, 5])
         depth = rng.randint(1, 6 if n < 5 else 3)
         cases.append({"n": n, "gates": random_circuit(rng, n, depth, 1, dm=True),
-                      "init": rand_rho(rng, n, kinds[i % 2]), "rho_kind": kinds[i % 2]})
+                      "init": rand_rho(rng, n, kinds[i % 5]), "rho_kind": kinds[i % 5]})
     allp = [(n, ts, cs) for n in range(1, 5) for ts, cs in placements(n, 3 if not quick else 2)]
     if quick:
         small = [p for p in allp if p[0] <= 3]
@@ -71,8 +77,8 @@ def gen_dm_cases(run, rng):
     else:
         sel = allp + [(5, ts, cs) for ts, cs in rng.sample(list(placements(5, 3)), 80)]
     for j, (n, ts, cs) in enumerate(sel):
-        cases.append({"n": n, "gates": [unitary_gate(rng, n, ts, cs, 2)], "init": rand_rho(rng, n, kinds[j % 2]),
-                      "rho_kind": kinds[j % 2]})
+        cases.append({"n": n, "gates": [unitary_gate(rng, n, ts, cs, 2)], "init": rand_rho(rng, n, kinds[j % 5]),
+                      "rho_kind": kinds[j % 5]})
     for name in NAMED:
         need = NAMED[name][0] + NAMED_ARITY[name]
         for n in (need, need + 1):
